@@ -16,7 +16,7 @@ RULE = ("parse cases: structured documents (weighted CommonMark grammar, perturb
 
 NUMERIC = ["&#x%X;" % c for c in (0, 8, 9, 0xB, 0xE, 0x1F, 0x7F, 0x9F, 0xD7FF, 0xD800, 0xDBFF, 0xDC00, 0xDFFF, 0xE000, 0xFDCF, 0xFDD0, 0xFDEF, 0xFDF0, 0xFFFD, 0xFFFE, 0xFFFF,
                                       0x1FFFE, 0x1FFFF, 0x10FFFD, 0x10FFFE, 0x10FFFF, 0x110000, 0xFFFFFF)] + ["&#%d;" % c for c in (0, 55295, 55296, 57343, 57344, 64976, 65007, 65534, 65535, 1114111, 1114112, 9999999)]
-FAMILIES = [" ".join(NUMERIC), "[a](/" + "".join(NUMERIC) + " \"" + "".join(NUMERIC) + "\")", "```" + "".join(NUMERIC[:12]) + "\nx", "[r]\n\n[r]: /" + "".join(NUMERIC[8:20]),
+FAMILIES = ["[x](/p%a)", "<http://example.com/50%2>", "[r]\n\n[r]: /u%f", "![i](<%e> \"t\")", "[x](%) [y](a%) [z](%4) [w](%%4)", " ".join(NUMERIC), "[a](/" + "".join(NUMERIC) + " \"" + "".join(NUMERIC) + "\")", "```" + "".join(NUMERIC[:12]) + "\nx", "[r]\n\n[r]: /" + "".join(NUMERIC[8:20]),
             "[*](/url)", "![_](/i.png)", "[~~ x]\n\n[~~ x]: /u", "[**](u) [__](u) ![*a](u)", "[" * 101 + "x  ", "[[[[a](/u)\t", "![" * 4 + "a  ", "[" * 4 + "x \t",
             "[`", "[``", "``[`]`", "[x``y`]`](u)", "`" * 5 + "[" + "`" * 3, "![" * 20, "[" * 40 + "a" + "](u)" * 40, ">" * 50, "- " * 40 + "a",
             "*a **b " * 30 + "c" + " b** a*" * 30, "&", "&#", "&#x", "&#1", "&a", "\\", "<", "<a", "<!--", "<?", "<![CDATA[", "```", "~~~\n", ">",
